@@ -11,7 +11,9 @@ Parameters (never axioms): RSA/PKCS#1 decryption is abstracted into the inputs (
 what its two fields DECRYPT to, `none` = not decryptable); the random verify token is carried by the login-start
 input (`nonce`: what crypto/rand yields if a request is generated); the session server is the function
 `Env.sess : name → sharedSecret → JoinResult` (hasJoined for the server id derived from that secret — the
-derivation itself is C09); the PreLogin handler's verdict and the online-mode flag are `Cfg`.
+derivation itself is C09); the PreLogin subscribers' verdict for a username, the number of login plugin messages they
+send during the PreLogin event (answered late or never: the completion of the login start is DEFERRED until the
+client has answered them all — the loginInboundConn machinery of C13) and the online-mode flag are `Cfg`.
 Player keys (1.19–1.19.2 only) are not modelled: the connection carries no key (`playerKey = nil`).
 -/
 namespace Gate.C08
@@ -23,9 +25,9 @@ inductive PreLogin where
 
 structure Cfg where
   onlineMode  : Bool
-  preLogin    : PreLogin
-  compression : Bool := true      -- cfg.Compression.Threshold >= 0: a SetCompression precedes LoginSuccess
-  deriving Repr
+  preLogin    : Bytes → PreLogin      -- verdict of the PreLogin subscribers for this username
+  preMsgs     : Bytes → Nat           -- login plugin messages they send (SendLoginPluginMessage) during the event
+  compression : Bool := true          -- cfg.Compression.Threshold >= 0: a SetCompression precedes LoginSuccess
 
 inductive JoinResult where
   | online        -- 200 with a usable profile
@@ -40,7 +42,7 @@ structure Env where
 inductive In where
   | login (name : Bytes) (nonce : Bytes)                -- ServerLogin{Username}
   | encResp (tok : Option Bytes) (secret : Option Bytes) -- EncryptionResponse: RSA decryptions of VerifyToken / SharedSecret
-  | pluginResp (id : Int)                               -- LoginPluginResponse (no message outstanding: C13 covers the rest)
+  | pluginResp (id : Int)                               -- LoginPluginResponse{id}
   | ack                                                 -- LoginAcknowledged
   | other                                               -- any other known packet, or an unknown packet id
   deriving DecidableEq, Repr
@@ -51,6 +53,8 @@ inductive Reason where
 
 inductive Out where
   | preLoginEvent (name : Bytes)
+  | pluginMsg (id : Int)                    -- LoginPluginMessage{id} written to the client (after the event: loginEventFired)
+  | consumed (id : Int)                     -- the message's consumer invoked with the client's answer
   | encReq (tok : Bytes)                    -- EncryptionRequest{VerifyToken}
   | encOn (secret : Bytes)                  -- conn.EnableEncryption(secret) succeeded
   | hasJoined (name : Bytes) (secret : Bytes)  -- AuthenticateJoin(serverId(secret, publicKey), name)
@@ -66,6 +70,7 @@ inductive Out where
 /-- loginState of initialLoginSessionHandler, then the auth handler's, then "connection closed" -/
 inductive Phase where
   | expect          -- loginPacketExpected
+  | waiting         -- loginPacketReceived, completion deferred: login plugin messages outstanding
   | encSent         -- encryptionRequestSent
   | successSent     -- authSessionHandler active, LoginSuccess written (1.20.2+: waiting for LoginAcknowledged)
   | config          -- login phase left
@@ -75,7 +80,8 @@ inductive Phase where
 structure St where
   phase  : Phase := .expect
   name   : Bytes := []     -- l.login.Username
-  verify : Bytes := []     -- l.verify
+  verify : Bytes := []     -- l.verify (the token the completion will issue)
+  outstanding : List Int := []   -- loginInboundConn.outstandingResponses (ids)
   deriving DecidableEq, Repr
 
 /-- playerNameRegex `^[A-Za-z0-9_]{2,16}$` on a Go string (bytes ≥ 0x80 are never in the class) -/
@@ -90,9 +96,9 @@ def decodable (n : Bytes) : Bool := 0 < n.length && n.length ≤ Gate.Gen.C08.ma
 /-- aes.NewCipher accepts exactly these key sizes -/
 def keyLenOk (n : Nat) : Bool := n == 16 || n == 24 || n == 32
 
-/-- `e.Result() != ForceOffline && (e.Result() == ForceOnline || cfg.OnlineMode)` -/
-def needsAuth (cfg : Cfg) : Bool :=
-  cfg.preLogin != .forceOffline && (cfg.preLogin == .forceOnline || cfg.onlineMode)
+/-- `e.Result() != ForceOffline && (e.Result() == ForceOnline || cfg.OnlineMode)` for the PreLogin event of `name` -/
+def needsAuth (cfg : Cfg) (name : Bytes) : Bool :=
+  cfg.preLogin name != .forceOffline && (cfg.preLogin name == .forceOnline || cfg.onlineMode)
 
 /-- authSessionHandler.Activated → startLoginCompletion → completeLoginProtocolPhaseAndInitialize
     (fresh proxy: no duplicate, LoginEvent allowed) -/
@@ -102,36 +108,62 @@ def admitSeq (cfg : Cfg) (name : Bytes) (online : Bool) : List Out :=
 
 def closeWith (outs : List Out) : St × List Out := ({ phase := .closed }, outs)
 
+/-- ids of the messages sent during the (single) PreLogin event: the sequence counter starts at 1 -/
+def msgIds (k : Nat) : List Int := (List.range k).map fun (i : Nat) => Int.ofNat i + 1
+
+/-- the completion callback handed to loginEventFired (runs once: C13): encryption request, or offline hand-over -/
+def complete (cfg : Cfg) (s : St) : St × List Out :=
+  if needsAuth cfg s.name then ({ s with phase := .encSent, outstanding := [] }, [.encReq s.verify])
+  else ({ s with phase := .successSent, outstanding := [] }, admitSeq cfg s.name false)
+
+/-- handleServerLogin in state loginPacketExpected -/
+def loginStep (cfg : Cfg) (name nonce : Bytes) : St × List Out :=
+  if !decodable name then closeWith [.close]
+  else if !validName name then closeWith [.disconnect .badName]
+  else if cfg.preLogin name == .denied then closeWith [.preLoginEvent name, .disconnect .denied]
+  else
+    let s' : St := { phase := .waiting, name := name, verify := nonce, outstanding := msgIds (cfg.preMsgs name) }
+    if cfg.preMsgs name == 0 then ((complete cfg s').1, .preLoginEvent name :: (complete cfg s').2)
+    else (s', .preLoginEvent name :: (msgIds (cfg.preMsgs name)).map .pluginMsg)
+
+/-- handleLoginPluginResponse while the completion is deferred -/
+def pluginStep (cfg : Cfg) (s : St) (id : Int) : St × List Out :=
+  if s.outstanding.contains id then
+    let rest := s.outstanding.filter (· != id)
+    if rest.isEmpty then ((complete cfg { s with outstanding := [] }).1, .consumed id :: (complete cfg { s with outstanding := [] }).2)
+    else ({ s with outstanding := rest }, [.consumed id])
+  else (s, [])
+
+/-- handleEncryptionResponse in state encryptionRequestSent -/
+def encStep (cfg : Cfg) (env : Env) (s : St) (tok secret : Option Bytes) : St × List Out :=
+  if s.verify.isEmpty then closeWith [.close]
+  else if tok != some s.verify then closeWith [.close]          -- Verify error or mismatch
+  else match secret with
+    | none => closeWith [.close]                                 -- DecryptSharedSecret error
+    | some sec =>
+      if !keyLenOk sec.length then closeWith [.disconnect .internal]
+      else match env.sess s.name sec with
+        | .error => closeWith [.encOn sec, .hasJoined s.name sec, .disconnect .unable]
+        | .offline => closeWith [.encOn sec, .hasJoined s.name sec, .disconnect .onlineOnly]
+        | .badProfile => closeWith [.encOn sec, .hasJoined s.name sec, .disconnect .unable]
+        | .online =>
+          ({ s with phase := .successSent }, [.encOn sec, .hasJoined s.name sec] ++ admitSeq cfg s.name true)
+
 def step (cfg : Cfg) (env : Env) (s : St) : In → St × List Out
   | .login name nonce =>
     match s.phase with
     | .closed | .config => (s, [])
-    | .expect =>
-      if !decodable name then closeWith [.close]
-      else if !validName name then closeWith [.disconnect .badName]
-      else if cfg.preLogin == .denied then closeWith [.preLoginEvent name, .disconnect .denied]
-      else if needsAuth cfg then
-        ({ phase := .encSent, name := name, verify := nonce }, [.preLoginEvent name, .encReq nonce])
-      else ({ phase := .successSent, name := name }, .preLoginEvent name :: admitSeq cfg name false)
-    | _ => closeWith [.close]                    -- assertState / authSessionHandler default case
+    | .expect => loginStep cfg name nonce
+    | _ => closeWith [.close]                    -- assertState (also while the completion is deferred) / auth handler default
   | .encResp tok secret =>
     match s.phase with
     | .closed | .config => (s, [])
-    | .encSent =>
-      if s.verify.isEmpty then closeWith [.close]
-      else if tok != some s.verify then closeWith [.close]          -- Verify error or mismatch
-      else match secret with
-        | none => closeWith [.close]                                 -- DecryptSharedSecret error
-        | some sec =>
-          if !keyLenOk sec.length then closeWith [.disconnect .internal]
-          else match env.sess s.name sec with
-            | .error => closeWith [.encOn sec, .hasJoined s.name sec, .disconnect .unable]
-            | .offline => closeWith [.encOn sec, .hasJoined s.name sec, .disconnect .onlineOnly]
-            | .badProfile => closeWith [.encOn sec, .hasJoined s.name sec, .disconnect .unable]
-            | .online =>
-              ({ s with phase := .successSent }, [.encOn sec, .hasJoined s.name sec] ++ admitSeq cfg s.name true)
+    | .encSent => encStep cfg env s tok secret
     | _ => closeWith [.close]
-  | .pluginResp _ => (s, [])                     -- unknown id: ignored by both handlers
+  | .pluginResp id =>
+    match s.phase with
+    | .waiting => pluginStep cfg s id
+    | _ => (s, [])                               -- nothing outstanding: unknown id, ignored by both handlers
   | .ack =>
     match s.phase with
     | .closed | .config => (s, [])
